@@ -130,6 +130,8 @@ MUTANTS = [
     ('spans', PRD, '        let body = self.parse_test()?;\n        let r = self.last_end;\n        Ok(Expr::Lambda(LambdaP {', '        let r = self.last_end;\n        let body = self.parse_test()?;\n        Ok(Expr::Lambda(LambdaP {', 'parse_lambda'),
     ('spans', PRD, '                let r = else_clause.span.end().get() as usize;\n', '                let r = r;\n', 'if_body'),
     ('spans', PRD, '        let body = self.parse_suite()?;\n        let r = self.last_end;\n        let var = grammar_util::check_assign', '        let r = self.last_end;\n        let body = self.parse_suite()?;\n        let var = grammar_util::check_assign', 'for_stmt'),
+    ('spans', PRD, '                    let second = self.parse_test()?;\n                    self.expect(&Token::ClosingSquare)?;\n                    let r = self.last_end;', '                    let r = self.last_end;\n                    let second = self.parse_test()?;\n                    self.expect(&Token::ClosingSquare)?;', 'index_or_slice'),
+    ('spans', PRD, '                    _ => Some(self.parse_test_list(false)?),\n                };\n                let r = self.last_end;', '                    _ => Some(self.parse_test_list(false)?),\n                };\n                let r = l + 6;', 'small_stmt'),
     ('calls', INSTR, '        eval.with_call_stack(self.to_value(), Some(location), |eval| {\n            self.invoke(args, eval)\n        })', '        self.invoke(args, eval)', 'bc_invoke'),
     ('calls', 'starlark/src/values/layout/value.rs', '        eval.with_call_stack(self, location, |eval| {\n            self.get_ref_full().invoke(args, eval)\n        })', '        self.get_ref_full().invoke(args, eval)', 'invoke_with_loc'),
     ('strindex', STRT, 'let ind = CharIndex(i.unsigned_abs() as usize);', 'let ind = CharIndex((-i) as usize);', 'at'),
